@@ -154,7 +154,6 @@ structure TiedHyp (c0 c1 : Circuit) (sp ep : List Name) : Prop where
   l1 : LintClean c1
   spnd : sp.Nodup
   epnd : ep.Nodup
-  epne : ep ≠ []
   in0 : ∀ s ∈ sp, s ∈ c0.inputs
   in1 : ∀ s ∈ sp, s ∈ c1.inputs
   all0 : ∀ i ∈ c0.inputs, i ∈ sp
@@ -164,8 +163,8 @@ structure TiedHyp (c0 c1 : Circuit) (sp ep : List Name) : Prop where
   ept0 : ∀ e ∈ ep, ∀ a, (e, a) ∈ c0.nodes → a.ty ≠ some "bb_input" ∧ a.ty ≠ some "bb_output"
   ept1 : ∀ e ∈ ep, ∀ a, (e, a) ∈ c1.nodes → a.ty ≠ some "bb_input" ∧ a.ty ≠ some "bb_output"
 
-theorem satTy_not_source (ep : List Name) : satTy ep ∉ sourceTypes := by
-  rcases satTy_cases ep with h | h <;> rw [h] <;> decide
+theorem satTy_not_source (ep : List Name) (hne : ep ≠ []) : satTy ep ∉ sourceTypes := by
+  rcases satTy_cases_ne ep hne with h | h <;> rw [h] <;> decide
 
 theorem mv_lintClean (V : MView c0 c1 sp ep m) (H : TiedHyp c0 c1 sp ep) : LintClean m := by
   have tyc0 : ∀ q ∈ c0.nodes, m.ty? (pref "c0" q.1) = (stripA q.2).ty := fun q hq => mv_ty_c0 V hq
@@ -177,14 +176,16 @@ theorem mv_lintClean (V : MView c0 c1 sp ep m) (H : TiedHyp c0 c1 sp ep) : LintC
     · exact strip_typed H.l1 hq
     · exact ⟨"input", rfl, by decide⟩
     · refine ⟨satTy ep, rfl, ?_⟩
-      rcases satTy_cases ep with h | h <;> rw [h] <;> decide
+      rcases satTy_cases ep with h | h | h <;> rw [h] <;> decide
     · exact ⟨"xor", rfl, by decide⟩
   · intro n t hty hs
     rcases mv_ty_cases V hty with ⟨q, hq, rfl, ht⟩ | ⟨q, hq, rfl, ht⟩ | ⟨hsp, rfl⟩ | ⟨rfl, rfl⟩ | ⟨e, he, rfl, rfl⟩
     · exact copy_noFanin H.l0 H.in0 hq ht hs (V.fanin_c0 H.spnd q.1)
     · exact copy_noFanin H.l1 H.in1 hq ht hs (V.fanin_c1 H.spnd q.1)
     · exact mv_fanin_tie V H.l0.toWF H.l1.toWF H.in0 H.in1 hsp
-    · exact absurd hs (satTy_not_source ep)
+    · by_cases hne : ep = []
+      · rw [V.fanin_sat, hne]; rfl
+      · exact absurd hs (satTy_not_source ep hne)
     · exact absurd hs (by decide)
   · intro n t hty hs
     rcases mv_ty_cases V hty with ⟨q, hq, rfl, ht⟩ | ⟨q, hq, rfl, ht⟩ | ⟨hsp, rfl⟩ | ⟨rfl, rfl⟩ | ⟨e, he, rfl, rfl⟩
@@ -192,12 +193,12 @@ theorem mv_lintClean (V : MView c0 c1 sp ep m) (H : TiedHyp c0 c1 sp ep) : LintC
     · exact copy_single_eq H.l1 H.in1 H.all1 hq ht hs (V.fanin_c1 H.spnd q.1)
     · exact absurd hs (by decide)
     · rw [V.fanin_sat, List.length_map]
-      unfold satTy at hs
-      by_cases hl : ep.length > 1
-      · rw [if_pos hl] at hs
-        exact absurd hs (by decide)
-      · have : ep.length ≠ 0 := fun h0 => H.epne (List.length_eq_zero_iff.1 h0)
-        omega
+      cases ep with
+      | nil => rw [satTy_nil] at hs; exact absurd hs (by decide)
+      | cons a l =>
+        cases l with
+        | nil => rfl
+        | cons b l => rw [satTy_two] at hs; exact absurd hs (by decide)
     · exact absurd hs (by decide)
   · intro n t hty hs
     rcases mv_ty_cases V hty with ⟨q, hq, rfl, ht⟩ | ⟨q, hq, rfl, ht⟩ | ⟨hsp, rfl⟩ | ⟨rfl, rfl⟩ | ⟨e, he, rfl, rfl⟩
@@ -205,8 +206,9 @@ theorem mv_lintClean (V : MView c0 c1 sp ep m) (H : TiedHyp c0 c1 sp ep) : LintC
     · exact copy_multi H.l1 hq ht hs (V.fanin_c1 H.spnd q.1)
     · exact absurd hs (by decide)
     · rw [V.fanin_sat, List.length_map]
-      have : ep.length ≠ 0 := fun h0 => H.epne (List.length_eq_zero_iff.1 h0)
-      omega
+      cases ep with
+      | nil => rw [satTy_nil] at hs; exact absurd hs (by decide)
+      | cons a l => simp
     · rw [V.fanin_dif H.epnd he]
       simp
   · intro e he hty
@@ -263,14 +265,13 @@ theorem miter_tied_clean {c0 c1 m : Circuit} {sp ep : List Name} {ord : Ord}
     (hr0 : LintLink.DotsRegistered c0) (hr1 : LintLink.DotsRegistered c1) (hne : c1.nodes ≠ [])
     (spnd : sp.Nodup) (epnd : ep.Nodup)
     (sp0 : ∀ s ∈ sp, s ∈ c0.inputs ∧ s ∈ c1.inputs) (ep0 : ∀ e ∈ ep, c0.has e = true ∧ c1.has e = true)
-    (hsp : sp ≠ []) (hep : ep ≠ [])
     (hall0 : ∀ i ∈ c0.inputs, i ∈ sp) (hall1 : ∀ i ∈ c1.inputs, i ∈ sp)
     (h : Tx.miter c0 (some c1) (some sp) (some ep) ord = .ok m) :
     LintClean m ∧ LintLink.NoDots m := by
-  have V := mview_of_ok h0 h1 hb0 hb1 hne hsp hep h
-  have T := miter_ep_types h0 h1 hb0 hb1 hne hsp hep h
+  have V := mview_of_ok h0 h1 hb0 hb1 hne h
+  have T := miter_ep_types h0 h1 hb0 hb1 hne h
   have H : TiedHyp c0 c1 sp ep :=
-    ⟨h0, h1, spnd, epnd, hep, fun s hs => (sp0 s hs).1, fun s hs => (sp0 s hs).2, hall0, hall1,
+    ⟨h0, h1, spnd, epnd, fun s hs => (sp0 s hs).1, fun s hs => (sp0 s hs).2, hall0, hall1,
       fun e he => (ep0 e he).1, fun e he => (ep0 e he).2, fun e he => (T e he).1, fun e he => (T e he).2⟩
   exact ⟨mv_lintClean V H, mv_noDots V (noDots_of_registered hb0 hr0) (noDots_of_registered hb1 hr1)
     H.in0 H.ep0⟩
